@@ -9,16 +9,17 @@ MODULES = ["idem", "dup", "setattr", "setflowdef", "probe_uref", "skip", "htons"
            "aggregate", "chunk_stream", "setrap", "noclock", "nodemux", "genaux", "convert_to_block"]
 
 
-def driver_sources(extra_modules=(), extra=()):
-    src = ["pipe_driver.c", "pipe_registry.c"]
-    src += sorted(os.path.basename(p) for p in glob.glob(os.path.join(vlib.HARNESS, "pd_ext_*.c")))
+def driver_sources(extra_modules=(), extra=(), exts=()):
+    """exts: the harness/pd_ext_*.c extension files THIS check needs (only those are
+    compiled in, so a half-edited extension of another check cannot break yours)."""
+    src = ["pipe_driver.c", "pipe_registry.c"] + list(exts)
     src += ["lib/upipe/%s.c" % n for n in LIB]
     src += ["lib/upipe-modules/upipe_%s.c" % n for n in list(MODULES) + list(extra_modules)]
     return src + list(extra)
 
 
-def build_driver(ctx, san="asan", extra_modules=(), extra=(), out="pipe_driver", flags=()):
-    return ctx.cc(out, driver_sources(extra_modules, extra), san=san, flags=list(flags))
+def build_driver(ctx, san="asan", extra_modules=(), extra=(), out="pipe_driver", flags=(), exts=()):
+    return ctx.cc(out, driver_sources(extra_modules, extra, exts), san=san, flags=list(flags))
 
 
 def run_script(ctx, binp, lines, pool=0, timeout=120):
